@@ -290,28 +290,23 @@ class StepTimeout(BaseException):
 
 
 class step_limit:
-    """per-step time limit inside the engine's per-case alarm"""
+    """per-step limit in CPU time of this process (ITIMER_VIRTUAL): a learn that spins is caught, a machine that is merely busy is not
+    (a wall-clock limit produced one spurious time-out at load average 50); independent of the engine's per-case SIGALRM"""
 
     def __init__(self, secs):
         self.secs = secs
 
     def __enter__(self):
-        import time
-        self.t0 = time.monotonic()
-        self.remaining = signal.alarm(0)
-        self.old = signal.signal(signal.SIGALRM, self._raise)
-        signal.setitimer(signal.ITIMER_REAL, self.secs)
+        self.old = signal.signal(signal.SIGVTALRM, self._raise)
+        signal.setitimer(signal.ITIMER_VIRTUAL, self.secs)
 
     @staticmethod
     def _raise(signum, frame):
         raise StepTimeout()
 
     def __exit__(self, *exc):
-        signal.setitimer(signal.ITIMER_REAL, 0)
-        signal.signal(signal.SIGALRM, self.old)
-        if self.remaining:
-            import time
-            signal.alarm(max(1, self.remaining - int(time.monotonic() - self.t0)))
+        signal.setitimer(signal.ITIMER_VIRTUAL, 0)
+        signal.signal(signal.SIGVTALRM, self.old)
         return False
 
 
@@ -1002,9 +997,9 @@ def run_corral(case, driver):
         tags.append("regime:extreme")
     else:
         tags.append("regime:benign")
-    if (a_on and not fails and played and len(played) <= 12 and all(op.get("score") is None for op in case["hist"][:len(played)])
+    if (a_on and not fails and played and all(op.get("score") is None for op in case["hist"][:min(len(played), 4)])
             and all(b["type"] != "corral" or all(x["type"] != "corral" for x in b["bases"]) for b in case["bases"])):
-        run_tower_check(case, driver, played, fails, tags)
+        run_tower_check(case, driver, played[:4], fails, tags)     # (cost) exact rationals grow exponentially with the rounds
     return {"fails": fails, "nontrivial": rounds >= 2, "tags": sorted(set(tags)), "impl": impl, "model": None}
 
 
@@ -1134,10 +1129,70 @@ def run_tower_check(case, driver, played, fails, tags):
                 return
 
 
+def pyact_json(d):
+    """an action descriptor as the model's PyAct (flavour + contents)"""
+    def sc(x):
+        return ["s", x[1]] if x[0] == "s" else ["n", q(mk_val(x))]
+    k = d[0]
+    if k in ("i", "f", "b", "s"):
+        return sc(d)
+    if k == "w":
+        inner = d[2]
+        if d[1] in DENSE_WRAPS:
+            return ["D", "tuple" if d[1] == "HashableDense" else "row", [sc(x) for x in inner[1]]]
+        return ["S", "odict" if d[1] == "OrderedDict" else "mapping", [[sc(a), sc(b)] for a, b in inner[1]]]
+    if k in ("l", "t"):
+        return ["D", "list" if k == "l" else "tuple", [sc(x) for x in d[1]]]
+    if k == "d":
+        return ["S", "dict", [[sc(a), sc(b)] for a, b in d[1]]]
+    raise ValueError(d)
+
+
 def run_witness(case, driver):
     """replays of Lean witnesses on the real code (only model = implementation is compared)"""
     from coba.learners import CorralLearner, RandomLearner
     fails, impl = [], {}
+    if case["name"] == "keyeq_sweep":
+        # Props.C16.make_hashable_respects_eq & co.: for pairs of catalogue actions in every flavour, `make_hashable` keys coincide
+        # (== and hash) / Python == holds on the real objects exactly when the model says so
+        from coba.learners.bandit import make_hashable
+        from coba.learners import BanditUCBLearner
+        objs = [d for cls in CATALOG for d in cls]
+        objs.append(["w", "OrderedDict", CATALOG[19][1]])       # the same items in the other order
+        pairs = []
+        pos = 0
+        for cls in CATALOG:
+            grp = objs[pos:pos + len(cls)]
+            pos += len(cls)
+            pairs += [(a, b) for a in grp for b in grp]
+        pairs += [(objs[-1], b) for b in CATALOG[19]] + [(b, objs[-1]) for b in CATALOG[19]] + [(objs[-1], ["w", "OrderedDict", CATALOG[19][0]])]
+        firsts = [cls[0] for cls in CATALOG] + [cls[-1] for cls in CATALOG]
+        pairs += [(a, b) for a in firsts for b in firsts]
+        res = driver.ask({"kind": "keyeq", "pairs": [[pyact_json(a), pyact_json(b)] for a, b in pairs]})["res"] if driver is not None else None
+        bad = 0
+        for n_, (a, b) in enumerate(pairs):
+            x, y = mk_val(a), mk_val(b)
+            kx, ky = make_hashable(x), make_hashable(y)
+            try:
+                same = bool(kx == ky) and hash(kx) == hash(ky)
+            except TypeError:
+                same = False
+            try:
+                eq = bool(x == y)
+            except Exception:
+                eq = False
+            if res is not None and [same, eq] != res[n_]:
+                bad += 1
+                if bad <= 3:
+                    fails.append(F("A", "keys/==: %s vs %s: implementation (same key %s, == %s), model %s" % (py_lit(a), py_lit(b), same, eq, res[n_]), "A:witness-keyeq"))
+        impl["pairs"] = len(pairs)
+        # the list/tuple exception replayed: == False, one key, and BanditUCB then scores both with 1.0 (recorded observation, outside the quantifier)
+        L = BanditUCBLearner(seed=1)
+        sc_ = [L.score(None, [[1, 2], (1, 2)], z) for z in ([1, 2], (1, 2))]
+        impl["list_tuple"] = {"eq": [1, 2] == (1, 2), "same_key": make_hashable([1, 2]) == make_hashable((1, 2)), "ucb_scores": sc_}
+        if ([1, 2] == (1, 2)) or make_hashable([1, 2]) != make_hashable((1, 2)):
+            fails.append(F("A", "witness same_key_not_pyEq no longer replays: %s" % impl["list_tuple"], "A:witness-keyeq"))
+        return {"fails": fails, "nontrivial": False, "tags": ["kind:witness", "witness:keyeq"], "impl": impl, "model": None}
     if case["name"] == "importance_feedback_unbounded":
         # Props.C16.corral_importance_feedback_unbounded: reward 1 at probability 1/2 reaches the base learner as 2, a Corral rejects 2
         rec = Rec(CorralLearner([RandomLearner(seed=1)], seed=2))
@@ -1450,6 +1505,13 @@ class C16(Property):
         "midpoint, the same `bisect` loop); with flDouble its output is compared with the real function's at 1e-12 on the outer and every nested Corral "
         "(every round for the first 12 rounds of a history, then every fifth); theorems about it are for every fl; that IEEE rounding is monotone "
         "(so the rounded midpoint stays in the bracket) and that doubles are finitely many is the hypothesis (D, rank, hmid) of omd_float_halts, not proved",
+        "Float pmfs: `Kind.pmfF flDouble` (every operation of the source line rounded) is compared with the real predict/score doubles for EQUALITY on every "
+        "bandit call; float_pmf_sum(_double) is proved from the standard model |fl x - x| <= u|x| (a hypothesis; flDouble satisfying it is not proved). The sum is "
+        "the real-number sum of the float entries (a consumer's own float summation adds its own rounding)",
+        "Action identity: PyAct/makeHashable/pyEq model flat dense/sparse actions with scalar items; compared with the real make_hashable (== and hash) and Python == "
+        "on 3310 pairs of catalogue objects in every flavour on every run (corpus witness keyeq_sweep)",
+        "Whole histories of `tower flDouble 2` (first 4 rounds of every Corral case without score calls; exact rationals grow exponentially with the rounds) against "
+        "the real composition built from fresh learners: choices and probabilities of every Corral and every plain learner per round, weights of every Corral per learn",
         "Nested compositions: `tower fl 2` (Corral over plain learners and Corrals over plain learners) is evaluated per learn call from the implementation's "
         "own states of all Corral nodes, plain learners replaced by stateless dummies (their learn is unobservable); nested weights compared at 2.5e-4",
         "first_bracket_has_root is over the reals (Mathlib IVT), tied to the rational model by omd_model_is_barrier / omd_defined_iff_below",
@@ -1464,6 +1526,8 @@ class C16(Property):
                    "[0,1] requirement): such rounds are outside the quantifier",
                    "(B) tolerances: score sums to 1 within 1e-9 (float), Corral weights within 1e-4 (stated in the property)"]
     partial_theorems = {
+        "corral_float_weights_sum_partial": "only the normalisation step of the float Corral weights; missing: an error bound for CPython's compensated sum() under the "
+                                            "float law (total within relative tau of the true sum is a hypothesis)",
         "corral_nested_valid": "forced hypothesis `accepts`: every Corral at or below a learner must be handed a reward in [0,1]; importance-mode feedback "
                                "reward/probability violates it for a nested Corral (corral_importance_feedback_unbounded, replayed as corpus witness)",
         "omd_float_halts": "termination on the double carrier assumes the rounded midpoint stays inside the bracket and in the carrier (monotone rounding); "
@@ -1524,6 +1588,7 @@ class C16(Property):
                       {"type": "eps", "eps": q(0.1), "seed": 9, "mis": [[[1, 1], [-1, 1]]]}]
                 cs.append({"t": "corral", "bases": nb, "eta": q(0.1), "T": [50, 1], "mode": mode, "seed": 4, "pool": pool, "hist": rounds(40, how="on")})
         cs.append({"t": "witness", "name": "importance_feedback_unbounded", "hist": []})
+        cs.append({"t": "witness", "name": "keyeq_sweep", "hist": []})
         # replays of recorded (now fixed) findings and other hand-made cases: corpus/C16/*.json
         d = os.path.join(os.path.dirname(os.path.dirname(os.path.dirname(os.path.abspath(__file__)))), "corpus", "C16")
         if os.path.isdir(d):
